@@ -53,9 +53,16 @@ type E3Event struct {
 	At    int    `json:"at,omitempty"` // ctxwrite/ctxtrigger: pipeline position of the context
 }
 
+// LateBuild is a pipeline-building operation applied after event After (sequentially, between events).
+type LateBuild struct {
+	After int     `json:"after"`
+	Op    BuildOp `json:"op"`
+}
+
 type E3Case struct {
 	Handlers []HSpec      `json:"handlers"`
 	Build    []BuildOp    `json:"build"`
+	Late     []LateBuild  `json:"late,omitempty"`
 	Events   []E3Event    `json:"events"`
 	Queue    int          `json:"queue,omitempty"`
 	Faults   []mock.Fault `json:"faults,omitempty"`
